@@ -995,6 +995,47 @@ def kerninit_exec(run, fx):
     run.held('GROWTH', inst, fn.where(), '%d margin / height combinations' % cases)
 
 
+def traceslotidx(run):
+    """SLOTREF in the build with tracing compiled in (configuration tracepass): the logging helpers of Pass address the slot map relative
+    to the context cell -- `input_slot(slots, -n)` is `slots[slots.context() - n]`.  Every such call with a non-zero offset -n is
+    dominated by the test n <= slots.context() on the same map (what Pass::testConstraint guarantees on the shaping path has to be
+    re-tested here: the trace lists rules that were *considered*, including those whose pre-context does not fit at the start of the
+    text)."""
+    fx = run.facts('tracepass')
+    inst = '[tracepass] input_slot / output_slot are called with an offset that stays inside the slot map'
+    n = nz = 0
+    for fn in fx.all_fns():
+        for _, e in fn.elements():
+            if e['k'] != 'CallExpr' or (e.get('fq') or '').split('::')[-1] not in ('input_slot', 'output_slot') or len(e.get('args') or []) != 2:
+                continue
+            n += 1
+            off = fn.strip_all_casts(fn.N(e['args'][1]))
+            if off.get('v') is not None and off['v'] >= 0:
+                continue
+            nz += 1
+            neg = off if not (off['k'] == 'UnaryOperator' and off.get('op') == '-') else fn.strip_all_casts(fn.N(off['c'][0]))
+            if neg is off:
+                run.violated('SLOTREF', inst, fn.loc(e), '%s calls %s with the offset `%s`, which is not of the form -n with a tested n' % (fn.q, e['fq'].split('::')[-1], fn.render(off)))
+                return
+            want_l = fn.render(neg)
+            mp = fn.render(fn.strip_all_casts(fn.N(e['args'][0])))
+            ok = False
+            for f in dom.facts_at(fn, e['i']):
+                if f[0] == want_l and f[1] in ('<=', '<') and f[2].replace(' ', '') in ((mp + '.context()').replace(' ', ''), (mp + '->context()').replace(' ', '')):
+                    ok = True
+                if f[2] == want_l and f[1] in ('>=', '>') and f[0].replace(' ', '') in ((mp + '.context()').replace(' ', ''), (mp + '->context()').replace(' ', '')):
+                    ok = True
+            if not ok:
+                run.violated('SLOTREF', inst, fn.loc(e), '%s calls %s(%s, -%s) without a dominating test %s <= %s.context(): for a considered rule that needs more pre-context than the text has in '
+                             'front of the current slot the index is negative -- the trace reads a cell in front of the slot map (a null slot at the start of the text) while gr_make_seg runs with '
+                             'logging on' % (fn.q, e['fq'].split('::')[-1], mp, want_l, want_l, mp))
+                return
+    if n < 3 or nz < 1:
+        run.broken('SLOTREF', inst, 'expected the input_slot / output_slot calls of the tracing helpers in Pass.cpp (found %d, %d with a negative offset)' % (n, nz), '')
+        return
+    run.held('SLOTREF', inst, '', '%d calls, %d with a negative offset, each under its test' % (n, nz))
+
+
 def _counts_up(fn, vid, K):
     """the local is initialised with a constant in 0..K and otherwise only written by ++ / += 1"""
     init_ok, other = False, False
@@ -1077,10 +1118,17 @@ def run(run):
     segctor_exec(run, fx)
     if not run.cfg_tag:
         attrstride(run)
+        try:
+            traceslotidx(run)
+        except AnalysisBroken as ex:
+            run.broken('SLOTREF', '[tracepass] input_slot / output_slot offsets', str(ex), '')
     from . import c18 as c18_
     c18_.applyval_exec(run, fx, 'GROWTH')        # SET_FEAT grows the segment's feature words through applyValToFeature: no store behind the block (shared with C18)
     const_(run, vm)
     localarrays(run, fx)
+    from . import c01 as c01g_
+    from .util import OnlyRules as _OnlyG
+    c01g_.glatend(_OnlyG(run, ['VALIDATOR'], {'VALIDATOR': 'CONST'}, soft=True), fx)        # a lazily loaded glyph's attribute runs are read inside the Glat table, during gr_make_seg (shared with C01)
     from . import validators as validators_
     validators_.check(run, fx, 'CONST')            # 'whatever ... state tables, classes or glyph attributes the accepted font contains': the loader's tabled rejections are what the run-time indexing relies on (shared with C01)
     try:
